@@ -86,6 +86,42 @@ fn compositions(n: u32) -> Vec<Vec<u32>> {
     out
 }
 
+/// One request of `words` words (2^27 and more: the bit count of the request no longer fits 32 bits), then a small one on the same generator.
+/// Compared piecewise (2^20 words at a time, so that no second copy is held) with the same stream drawn in pieces from a second generator of the
+/// library — the property's own statement — whose first 4096 words are anchored on the reference.
+#[derive(Serialize, Deserialize, Hash, Debug, Clone)]
+pub struct Giant {
+    pub words: u64,
+    pub seed: u64,
+}
+
+pub fn check_giant(c: &Giant) -> CaseResult {
+    let (key, iv) = (arr16(&expand_bytes(c.seed ^ 0x61a, 16)), arr16(&expand_bytes(c.seed ^ 0x61b, 16)));
+    let n = c.words as usize;
+    let mut big = gm_zuc::ZUC::new(&key, &iv);
+    let out = match catch(std::panic::AssertUnwindSafe(|| big.generate_keystream(n))) {
+        Ok(v) => v,
+        Err(p) => return fail("entry=ZUC::generate_keystream input=giant-request outcome=panic", format!("{} words: {}", n, p)),
+    };
+    ensure!(out.len() == n, "entry=ZUC::generate_keystream outcome=wrong-count", "one request for {} words returned {}", n, out.len());
+    let want = rzuc::keystream(&key, &iv, 4096);
+    ensure!(out[..4096] == want[..], "entry=ZUC::generate_keystream outcome=wrong-keystream", "a request for {} words: the first 4096 differ from the specification", n);
+    let mut pieces = gm_zuc::ZUC::new(&key, &iv);
+    let mut pos = 0usize;
+    while pos < n {
+        let step = (1usize << 20).min(n - pos);
+        let v = pieces.generate_keystream(step);
+        if v[..] != out[pos..pos + step] {
+            let off = v.iter().zip(out[pos..].iter()).position(|(a, b)| a != b).unwrap_or(0);
+            return fail("entry=ZUC::generate_keystream outcome=split-dependent", format!("one request of {} words differs from the same stream drawn in 2^20-word pieces at word {}", n, pos + off));
+        }
+        pos += step;
+    }
+    let (a, b) = (big.generate_keystream(5), pieces.generate_keystream(5));
+    ensure!(a == b, "entry=ZUC::generate_keystream outcome=split-dependent", "the request after a {}-word request gives {:08x?}, after the pieces {:08x?}", n, a, b);
+    pass(true, "giant-request")
+}
+
 #[derive(Serialize, Deserialize, Hash, Debug, Clone)]
 pub struct Golden {
     pub index: usize,
@@ -220,6 +256,11 @@ pub fn run(ctx: &Ctx) {
     ctx.listed("huge_requests", "one very large request followed by small ones (2^16+5 words in the quick tier; up to 2^22+17 in the thorough tier)", move || {
         huge.iter().map(|n| Split { key: Hex(expand_bytes(*n as u64 ^ 0x8a, 16)), iv: Hex(expand_bytes(*n as u64 ^ 0x8b, 16)), requests: vec![*n, 1, 0, 17] }).collect::<Vec<_>>()
     }, check_split);
+
+    let giants: Vec<u64> = ctx.tier.pick(vec![(1u64 << 27) + 5], vec![(1u64 << 27) - 1, 1 << 27, (1 << 27) + 5, (1 << 28) + 3]);
+    ctx.listed_seq("single_request_of_2_pow_27_words", "one request of 2^27+5 words (512 MiB; thorough: 2^27-1, 2^27, 2^27+5, 2^28+3) — the request's bit count no longer fits 32 bits — then 5 more: word count, first 4096 words == reference, whole stream == the same stream drawn in 2^20-word pieces from a second generator", move || {
+        giants.iter().map(|w| Giant { words: *w, seed: *w }).collect::<Vec<_>>()
+    }, check_giant);
 
     ctx.exhaustive("long_request_then_more", "request sizes [n, m, 1] for every n in 0..=70 and m in {0, 1, 5, 16, 17} (a request that ends inside a 16-word block of the LFSR, followed by further requests) x 2 (key, iv) pairs", || {
         let mut v = Vec::new();
